@@ -409,7 +409,7 @@ func newFnExec(P *Prog, fn *ssa.Function, key string, con *Contract) *FnExec {
 		cellType: map[int]types.Type{}, cellName: map[int]string{}, in: map[*ssa.BasicBlock]*State{}, out: map[*ssa.BasicBlock]*State{},
 		edge: map[[2]int]*Term{}, loops: map[*ssa.BasicBlock]*loopInfo{}, kindN: map[string]int{}, classes: map[string]string{},
 		varAddr: map[types.Object][]ssa.Value{}, nonNil: map[int]*ssa.BasicBlock{}, params: map[string]Val{}, paramTy: map[string]types.Type{},
-		ghost: map[string]*Term{}, assumed: map[string]int{}, iterCells: map[*ssa.Range]int{}, iterSort: map[int]string{}, closures: map[*Term]*ssa.MakeClosure{}, wfDone: map[string]bool{}, epochCtr: map[int]*Term{}, guardN: map[string]int{}, guardSeen: map[string]bool{}, callResults: map[string]specVar{}}
+		ghost: map[string]*Term{}, assumed: map[string]int{}, iterCells: map[*ssa.Range]int{}, iterSort: map[int]string{}, closures: map[*Term]*ssa.MakeClosure{}, wfDone: map[string]bool{}, epochCtr: map[int]*Term{}, guardN: map[string]int{}, guardSeen: map[string]bool{}, callResults: map[string]specVar{}, callArgs: map[string][]specVar{}, calledCell: map[string]int{}}
 }
 
 func shortKey(k string) string {
@@ -422,7 +422,7 @@ func lemmaObligation(P *Prog, l *Lemma) (*Obligation, error) {
 	e := newFnExec(P, nil, "lemma:"+l.Name, nil)
 	st := &State{reach: True, cells: map[int]*Term{}, mem: map[string]*Term{}, ctr: Var("ctr@0", "Int")}
 	e.entry = st
-	env := &SpecEnv{e: e, cur: st, old: st, vars: map[string]specVar{}, pkg: P.typesPkg(l.PkgPath)}
+	env := &SpecEnv{pureIdx: -1, e: e, cur: st, old: st, vars: map[string]specVar{}, pkg: P.typesPkg(l.PkgPath)}
 	g, err := env.boolExpr(l.Body)
 	if err != nil {
 		return nil, err
